@@ -139,7 +139,7 @@ RECURSIVE Rep(_, _)
 Rep(str, n) == IF n = 0 THEN "" ELSE IF n % 2 = 0 THEN Rep(str \o str, n \div 2) ELSE str \o Rep(str \o str, n \div 2)
 NPads == Y1 - Y0 + 1
 NItems == CASE Mode = "pad" -> (NPads + Batch - 1) \div Batch [] Mode = "corpus" -> Len(PipeSeq) * Len(Corpus) [] Mode = "shapes" -> Len(ShapeSeq) [] Mode = "registry" -> Len(HistSeq) [] Mode = "dates" -> (Len(DateSeq) + Batch - 1) \div Batch
-Picked == SelectSeq([j \in 1..NItems |-> j], LAMBDA j : j % Stride = Offset % Stride)
+Picked == SelectSeq([j \in 1..NItems |-> j], LAMBDA j : (j + (j \div Stride) + (j \div (Stride * Stride))) % Stride = Offset % Stride)
 
 CaseJson(j) ==
   CASE Mode = "corpus" ->
